@@ -330,6 +330,84 @@ def make_sim(root, simname, restarts=2, ghosts=1):
                 f.write(b'')
 
 
+STRIDED = [(0, 256, 64), (256, 512, 32), (512, 768, 32), (768, 1024, 32)]
+GROUPED = {'alp.h5': ('ADMBASE', ['alp']), 'thorna-scalars.h5': ('THORNA', ['sa1', 'sa2']), 'thornb-scalars.h5': ('THORNB', ['sb1', 'sb2'])}
+
+
+def make_sim_strided(root, simname, restarts=3):
+    """second directory shape: the output stride changes between restart 0 and 1 and stays afterwards; two thorns write grouped
+    files with the same group name (not one of the groups aurel knows)"""
+    import h5py
+    for r in range(restarts):
+        lo, hi, st = STRIDED[r]
+        d = os.path.join(root, simname, f'output-{r:04d}', simname)
+        os.makedirs(d, exist_ok=True)
+        for fn, (thorn, vs) in GROUPED.items():
+            with h5py.File(os.path.join(d, fn), 'w') as f:
+                for it in range(lo, hi + 1, st):
+                    for v in vs:
+                        ds = f.create_dataset(f"{thorn}::{v} it={it} tl=0 rl=0", data=np.ones((5, 5, 5)) * it)
+                        ds.attrs['cctk_nghostzones'] = np.array([1] * 3, dtype=np.int32)
+                        ds.attrs['iorigin'] = np.array([0, 0, 0], dtype=np.int32)
+                        ds.attrs['time'] = 0.5 * it
+
+
+def strided_round_trip(simname):
+    """-> list of problems for the strided / two-thorn directory (real functions, temporary directory)"""
+    from aurel import reading
+    import io
+    import contextlib
+    bad = []
+    root = tempfile.mkdtemp(prefix='c18s_')
+    try:
+        make_sim_strided(root + '/', simname, restarts=3)
+        param = {'simname': simname, 'simpath': root + '/'}
+        with contextlib.redirect_stdout(io.StringIO()):
+            try:
+                mem = reading.iterations(param, skip_last=False, verbose=False)
+                mem_snapshot = normal(mem)
+                again = reading.iterations(param, skip_last=False, verbose=False)
+                parsed = reading.read_iterations(param, skip_last=False, verbose=False)
+                cont = reading.get_content(param, restart=0, verbose=False)
+                cont_cached = reading.get_content(param, restart=0, verbose=False)
+                cont_fresh = reading.get_content(param, restart=0, verbose=False, overwrite=True)
+            except Exception as e:  # noqa
+                return [f'{type(e).__name__}: {e}'[:160]]
+        if mem_snapshot != normal(again):
+            bad.append('second call differs from the first call')
+        if normal({k: v for k, v in mem.items() if k != 'overall'}) != normal(parsed):
+            bad.append('iterations.txt parses to something else than what was returned in memory')
+        for r in range(3):
+            lo, hi, st = STRIDED[r]
+            got = mem.get(r, {})
+            if [int(x) for x in got.get('its available', [])] != [lo, hi] or [int(x) for x in got.get('rl = 0', [])] != [lo, hi, st]:
+                bad.append(f"restart {r} catalogued as {got.get('its available')} / {got.get('rl = 0')}, on disk {[lo, hi, st]}")
+        ov = [[int(x) for x in seg] for seg in mem.get('overall', {}).get('rl = 0', [])]
+        if ov != [[0, 256, 64], [256, 768, 32]]:
+            bad.append(f'overall ranges {ov}, on disk [[0, 256, 64], [256, 768, 32]]')
+        want = {tuple(vs): [fn] for fn, (_, vs) in GROUPED.items()}
+        for tag, c_ in (('first', cont), ('cached', cont_cached), ('overwrite=True', cont_fresh)):
+            got = {tuple(k): sorted(os.path.basename(x) for x in v) for k, v in c_.items()}
+            if got != want:
+                bad.append(f'content catalogue ({tag}) maps {got}, on disk {want}')
+        # incremental: a fourth restart, then against one fresh scan
+        make_sim_strided(root + '/', simname, restarts=4)
+        with contextlib.redirect_stdout(io.StringIO()):
+            try:
+                inc = reading.iterations(param, skip_last=False, verbose=False)
+                os.remove(os.path.join(root, simname, 'iterations.txt'))
+                fresh = reading.iterations(param, skip_last=False, verbose=False)
+            except Exception as e:  # noqa
+                return bad + [f'incremental: {type(e).__name__}: {e}'[:160]]
+        if normal(inc) != normal(fresh):
+            bad.append('incremental cataloguing differs from one fresh scan')
+        if [int(x) for x in fresh.get(2, {}).get('rl = 0', [])] != [512, 768, 32]:
+            bad.append(f"after the fourth restart, restart 2 is catalogued as {fresh.get(2, {}).get('rl = 0')}, on disk [512, 768, 32]")
+    finally:
+        shutil.rmtree(root, ignore_errors=True)
+    return bad
+
+
 def replay_dispatch(line, tname):
     """find a simulation name that makes iterations() write such a line, run the real functions twice"""
     from aurel import reading
@@ -424,7 +502,10 @@ def round_trips(report, tier):
                 bad.append((simname, 'incremental cataloguing differs from one fresh scan'))
         finally:
             shutil.rmtree(root, ignore_errors=True)
-    report.record(f'catalogue round trips on generated directories ({len(names)} simulation names incl. catalogue keywords)',
+    for simname in ('strided', 'a restart b'):
+        for what in strided_round_trip(simname):
+            bad.append((simname + ' [strided restarts, two thorns with one group name]', what))
+    report.record(f'catalogue round trips on generated directories ({len(names)} simulation names incl. catalogue keywords; 2 directory shapes)',
                   'holds' if not bad else 'sat', group='concrete executions', kind='concrete', trivial=True)
     seen = set()
     for simname, what in bad:
